@@ -155,17 +155,23 @@ def update_structure(cx, N, Nt):
 
 
 @harness("C01", "secularize_generic",
-         quick=[dict(N=2, how="legacy"), dict(N=3, how="data")],
-         thorough=[dict(N=n, how=h) for n in (2, 3, 4) for h in ("legacy", "data")],
+         quick=[dict(N=2, how="legacy"), dict(N=3, how="data"), dict(N=2, how="legacy", Nt=3)],
+         thorough=[dict(N=n, how=h) for n in (2, 3, 4) for h in ("legacy", "data")] +
+                  [dict(N=2, how="legacy", Nt=3), dict(N=3, how="legacy", Nt=2)],
          functions=[F_REL + ":RelaxationTensor.secularize", F_SEC + ":Secular.secularize",
                     F_SEC + ":Secular._secularize_data"],
-         bound="N<=3 (thorough 4); arbitrary tensor satisfying the two identities",
+         bound="N<=3 (thorough 4); arbitrary tensor satisfying the two identities; with Nt: a time-dependent (5-index) "
+               "tensor with the identities at each of Nt time indices, secularized by the base-class routine (the one "
+               "the time-dependent Foerster and Redfield-Foerster tensors inherit)",
          out="")
-def secularize_generic(cx, N, how):
+def secularize_generic(cx, N, how, Nt=None):
     from quantarhei.qm.liouvillespace.relaxationtensor import RelaxationTensor
     RT = RelaxationTensor()
     RT.dim = N
-    R = tensor_with_identities(cx, N)
+    if Nt is None:
+        R = tensor_with_identities(cx, N)
+    else:
+        R = numpy.array([tensor_with_identities(cx, N, "R%d" % t) for t in range(Nt)], dtype=object if cx.sym else complex)
     RT._data = R.copy()
     trace_and_herm(cx, "pre", RT._data)
     if how == "legacy":
